@@ -88,15 +88,19 @@ class _Lock:
         fcntl.flock(self.f, fcntl.LOCK_UN); self.f.close()
 
 def _prune(keep):
-    """keep at most 3 tree directories (LRU by mtime)"""
+    """bound the cache: keep the 8 most recently used trees, and never remove one used in the last 3 hours
+    (several checks / scratch trees may be in flight at once)"""
     try:
         ds = [d for d in os.listdir(CACHE) if os.path.isdir(os.path.join(CACHE, d)) and d != "tools"]
     except FileNotFoundError:
         return
     ds = [d for d in ds if d != keep]
     ds.sort(key=lambda d: os.path.getmtime(os.path.join(CACHE, d)), reverse=True)
-    for d in ds[2:]:
-        shutil.rmtree(os.path.join(CACHE, d), ignore_errors=True)
+    now = time.time()
+    for d in ds[7:]:
+        if now - os.path.getmtime(os.path.join(CACHE, d)) > 3 * 3600:
+            shutil.rmtree(os.path.join(CACHE, d), ignore_errors=True)
+
 
 def lib(flavour):
     """Build (or fetch) libgeo.a for the flavour.  Returns dict(dir, lib, inc, cxx, flags, ld)."""
